@@ -3,13 +3,26 @@
   time in any dependency-respecting order.  Property theorems only; helper lemmas live in
   MelModel/Lemmas/SeqL.lean (which may build on Lemmas/Perm.lean and Lemmas/Batch.lean).
 
-  About the fallback header: `applyBatch` takes the header that covenants see as "last header" from the history
-  (`history[height-1]`); only in a state without that entry (the genesis block, height 0) does it fall back to
-  the header of the *current* state sealed without an action, which the model receives as a parameter.  In a
-  one-at-a-time application at height 0 that fallback is a different header at every step (the state has
-  changed), so a covenant that inspects the last header's Merkle roots can tell the two apart: the equivalence
-  is stated for states that have their previous header (every reachable state of height ≥ 1, `Inv.historyFull`),
-  and then holds whatever fallbacks are passed.
+  About the header covenants see (finding F25).  `applyBatch` takes the header that covenants see as "last header"
+  from the history (`history[height-1]`).  In a state without that entry (the first block of a chain) the Rust code
+  used to take the header of the *current* state sealed as it stood, which the model received as the parameter
+  `genesisFallback`; in a one-at-a-time application that header is a different one at every step (the state has
+  changed), so a covenant inspecting its Merkle roots or fee pool could tell batch and one-at-a-time application
+  apart, and the theorems below had to ASSUME `hh : ∃ hdr, s.history.get (s.height - 1) = some hdr` (not the first
+  block).  Since the `fix:` for F25 the stand-in is `genesisStandIn s`, made only of `s.network`, `s.height`,
+  `s.feeMultiplier`, `s.doscSpeed`, and the parameter is not looked at any more (`C03_fallback_unused`).
+
+  WHAT REPLACED `hh`: nothing.  The hypothesis is dropped from `C03_batch_split`, `C03_seq_of_batch`,
+  `C03_batch_of_seq`, `C03_seq_orders` without a substitute — not even the reachable-state invariant
+  `∀ h hdr, s.history.get h = some hdr → h < s.height` is needed.  Reason: an accepted batch keeps network, height,
+  fee multiplier and history; it changes `doscSpeed` only by accepting a DoscMint transaction, and
+  `validateDoscmint` accepts only when `history[height-1]` exists (it reads the previous header's speed; at height 0
+  it crashes, else it rejects with `InvalidMelPoW`): `SeqL.doscmint_ok_prev`.  So in a state without previous header
+  no accepted step changes the stand-in (`SeqL.batch_speed_first`), and in a state with previous header the stand-in
+  is not used: the header covenants see is the same after every accepted step (`SeqL.batch_lastHeader`,
+  `C03_lastHeader_stable`).  The new statements are strictly stronger: they cover the first block
+  (`C03_seq_nonvacuous_first_block`), which `hh` excluded.  The old behaviour is recorded in
+  `C03SeqWitness.lastHeaderOfOld` / `C03_old_fallback_matters`.
 -/
 import MelModel.ApplyTx
 import MelModel.Props.C03
@@ -59,26 +72,44 @@ theorem GfFresh.toGfOk {env : Env} {s : State} {txs : List Tx} (h : GfFresh env 
     obtain ⟨u, hu, hm⟩ := createdOf_get_some hc
     exact absurd rfl (h f hf hk hb u hu _ hm)
 
+/-- **the fallback parameter is not looked at** (since the `fix:` for F25) -/
+theorem C03_fallback_unused (s : State) (fb fb' : Header) : lastHeaderOf s fb = lastHeaderOf s fb' := rfl
+
+/-- … so `applyBatch` does not depend on it, in any state (first block included) -/
+theorem C03_applyBatch_fallback_unused (env : Env) (s : State) (txs : List Tx) (fb fb' : Header) :
+    applyBatch env s txs fb = applyBatch env s txs fb' := rfl
+
+/-- **the header covenants see is fixed for the block**: after any accepted batch (in particular after each step of
+    a one-at-a-time application) `lastHeaderOf` is what it was before — in the first block too, where it is the
+    stand-in: no hypothesis on the state.  (An accepted batch keeps network, height, fee multiplier and history, and
+    can only change the DOSC speed when the previous header exists, in which case the stand-in is not used.) -/
+theorem C03_lastHeader_stable (env : Env) (s s' : State) (txs : List Tx) (fb fb₁ fb₂ : Header)
+    (h : applyBatch env s txs fb = .ok s') : lastHeaderOf s' fb₁ = lastHeaderOf s fb₂ :=
+  SeqL.batch_lastHeader h fb₁ fb₂
+
 /-- **a batch can be split at its head**: if the first transaction does not depend on the others, applying the
-    batch is applying the first transaction and then the rest -/
+    batch is applying the first transaction and then the rest.
+
+    CHANGED STATEMENT (strengthened): the hypothesis `hh : ∃ hdr, s.history.get (s.height - 1) = some hdr` was
+    dropped and nothing replaces it (see the header of this file): the statement now covers the first block. -/
 theorem C03_batch_split (env : Env) (s s₁ : State) (t : Tx) (rest : List Tx) (fb fb' : Header)
     (hpre : PermPre env s (t :: rest))
     (hdep : ∀ u ∈ rest, ∀ id ∈ t.inputs, id.txhash ≠ u.hash)
-    (hh : ∃ hdr, s.history.get (s.height - 1) = some hdr)
     (h : applyBatch env s (t :: rest) fb = .ok s₁) :
     ∃ sm s₂, applyBatch env s [t] fb' = .ok sm ∧ applyBatch env sm rest fb' = .ok s₂ ∧ BatchEquiv s₁ s₂ := by
-  obtain ⟨sm, s₂, h1, h2, e, -⟩ := SeqL.split_main (SeqL.SPre.ofPre hpre.toPre) hdep hh h fb'
+  obtain ⟨sm, s₂, h1, h2, e, -⟩ := SeqL.split_main (SeqL.SPre.ofPre hpre.toPre) hdep h fb'
   exact ⟨sm, s₂, h1, h2, batchEquiv_of e⟩
 
 /-- **batch ⇒ sequential**: an accepted batch, applied one transaction at a time in a dependency-respecting
-    order, is accepted at every step and ends in the same observable state -/
+    order, is accepted at every step and ends in the same observable state.
+
+    CHANGED STATEMENT (strengthened): the hypothesis `hh` (previous header exists) was dropped without substitute. -/
 theorem C03_seq_of_batch (env : Env) (s s₁ : State) (txs : List Tx) (fb fb' : Header)
     (hpre : PermPre env s txs) (hdep : DepOrder txs)
-    (hh : ∃ hdr, s.history.get (s.height - 1) = some hdr)
     (h : applyBatch env s txs fb = .ok s₁) :
     ∃ s₂, applySeq env s txs fb' = .ok s₂ ∧ BatchEquiv s₁ s₂ := by
   obtain ⟨s₂, h2, e⟩ := SeqL.seq_of_batch env fb' txs s s₁ fb (SeqL.SPre.ofPre hpre.toPre)
-    ((depOrder_iff txs).mp hdep) hh h
+    ((depOrder_iff txs).mp hdep) h
   exact ⟨s₂, h2, batchEquiv_of e⟩
 
 /-- **sequential ⇒ batch**: if the one-at-a-time application succeeds, the batch is accepted with the same state.
@@ -90,31 +121,33 @@ theorem C03_seq_of_batch (env : Env) (s s₁ : State) (txs : List Tx) (fb fb' : 
     `t`, then `t`-then-`u` is accepted one at a time (the coin does not exist yet when `t` is checked), but the
     batch — which inserts all outputs first — rejects `t` with `DuplicateTx`
     (`C03_batch_of_seq_counterexample`).  `hgf` is implied by the conclusion (an accepted batch satisfies it),
-    so it is the weakest hypothesis that repairs the statement. -/
+    so it is the weakest hypothesis that repairs the statement.
+
+    CHANGED STATEMENT (strengthened): the hypothesis `hh` (previous header exists) was dropped without substitute. -/
 theorem C03_batch_of_seq (env : Env) (s s₂ : State) (txs : List Tx) (fb fb' : Header)
     (hpre : PermPre env s txs) (hdep : DepOrder txs)
-    (hh : ∃ hdr, s.history.get (s.height - 1) = some hdr)
     (hgf : GfFresh env s txs)
     (h : applySeq env s txs fb' = .ok s₂) :
     ∃ s₁, applyBatch env s txs fb = .ok s₁ ∧ BatchEquiv s₁ s₂ := by
   obtain ⟨s₁, h1, e⟩ := SeqL.batch_of_seq env fb' txs s s₂ fb (SeqL.SPre.ofPre hpre.toPre)
-    ((depOrder_iff txs).mp hdep) hh hgf.toGfOk h
+    ((depOrder_iff txs).mp hdep) hgf.toGfOk h
   exact ⟨s₁, h1, batchEquiv_of e⟩
 
 /-- together with `C03_perm`: every dependency-respecting order of the same set gives the same state.
 
     CHANGED STATEMENT: the hypothesis `hgf` was added, for the same reason as in `C03_batch_of_seq`: without it
     the order that puts the creator of the pseudo-coin before the grandfathered faucet transaction is rejected
-    (`C03_seq_orders_counterexample`). -/
+    (`C03_seq_orders_counterexample`).
+
+    CHANGED STATEMENT (strengthened): the hypothesis `hh` (previous header exists) was dropped without substitute. -/
 theorem C03_seq_orders (env : Env) (s s₂ : State) (txs txs' : List Tx) (fb : Header) (hp : txs.Perm txs')
     (hpre : PermPre env s txs) (hdep : DepOrder txs) (hdep' : DepOrder txs')
-    (hh : ∃ hdr, s.history.get (s.height - 1) = some hdr)
     (hgf : GfFresh env s txs)
     (h : applySeq env s txs fb = .ok s₂) :
     ∃ s₂', applySeq env s txs' fb = .ok s₂' ∧ BatchEquiv s₂ s₂' := by
-  obtain ⟨s₁, h1, e1⟩ := C03_batch_of_seq env s s₂ txs fb fb hpre hdep hh hgf h
+  obtain ⟨s₁, h1, e1⟩ := C03_batch_of_seq env s s₂ txs fb fb hpre hdep hgf h
   obtain ⟨s₁', h1', e2⟩ := C03_perm env s s₁ txs txs' fb hp hpre h1
-  obtain ⟨s₂', h2', e3⟩ := C03_seq_of_batch env s s₁' txs' fb fb (hpre.perm hp) hdep' hh h1'
+  obtain ⟨s₂', h2', e3⟩ := C03_seq_of_batch env s s₁' txs' fb fb (hpre.perm hp) hdep' h1'
   exact ⟨s₂', h2', batchEquiv_of (SeqL.equiv_trans (SeqL.equiv_symm (equiv_of_batchEquiv e1))
     (SeqL.equiv_trans (equiv_of_batchEquiv e2) (equiv_of_batchEquiv e3)))⟩
 
@@ -174,16 +207,53 @@ theorem permPre_tu : PermPre env s [t, u] := by
     simp only [List.mem_cons, List.not_mem_nil, or_false] at hx
     rcases hx with rfl | rfl <;> simp [s, t, u, P, CoinMap.getCoin, AList.get]
 
+/-! a first block: height 0, empty history -/
+
+/-- a covenant that reads the header it is shown: `last_header.height == 0` -/
+def covH : Bytes :=
+  (VM.encodeAll [VM.Op.pushi 2, VM.Op.loadimm 10, VM.Op.vref, VM.Op.pushi 0, VM.Op.eql]).getD []
+
+def P0 : CoinID := ⟨[5], 0⟩
+/-- a state without previous header -/
+def s0 : State := {
+  network := .custom02, height := 0, history := [],
+  coins := { coins := [(P0, ⟨⟨[7], 5, .mel, []⟩, 0⟩)], counts := [([7], 1)] },
+  txs := [], feePool := 0, feeMultiplier := 0, tips := 0, doscSpeed := 0, pools := [], stakes := [] }
+/-- spends `P0`, under a covenant that inspects the last header -/
+def a0 : Tx := {
+  kind := .normal, inputs := [P0], outputs := [(⟨[7], 5, .mel, []⟩ : CoinData)], fee := 0,
+  covenants := [covH], data := [], sigs := [], hash := [1], rawLen := 0, covHashes := [[7]] }
+/-- spends the output of `a0`, under the same covenant -/
+def b0 : Tx := {
+  kind := .normal, inputs := [⟨[1], 0⟩], outputs := [(⟨[8], 5, .mel, []⟩ : CoinData)], fee := 0,
+  covenants := [covH], data := [], sigs := [], hash := [2], rawLen := 0, covHashes := [[7]] }
+
+theorem counts_s0 : CountsFine s0.coins := by
+  refine ⟨by decide, by decide, ?_, ?_⟩
+  · intro x
+    by_cases hx : x = [7]
+    · subst hx; decide
+    · have hx' : ¬ ([7] : Hash) = x := fun h => hx h.symm
+      simp [s0, P0, CoinMap.coinCount, AList.get, hx']
+  · intro e he
+    simp only [s0, List.mem_cons, List.not_mem_nil, or_false] at he
+    subst he
+    decide
+
+/-- F25, the old behaviour: without previous header the environment of covenants was the second argument — the header
+    of the current block sealed as it stood, which changes as the block fills -/
+def lastHeaderOfOld (s : State) (fb : Header) : Header := (s.history.get (s.height - 1)).getD fb
+
 end C03SeqWitness
 open C03SeqWitness in
-/-- `C03_batch_of_seq` without `hgf` is false: all the original hypotheses hold, the one-at-a-time application
-    is accepted, the batch is rejected -/
+/-- `C03_batch_of_seq` without `hgf` is false: all the other hypotheses hold, the one-at-a-time application
+    is accepted, the batch is rejected.  (The conjunct "the previous header exists" was removed together with the
+    hypothesis `hh` of the theorem; the witness state does have its previous header.) -/
 theorem C03_batch_of_seq_counterexample :
     PermPre C03Witness.env s [t, u] ∧ DepOrder [t, u] ∧
-    (∃ hdr, s.history.get (s.height - 1) = some hdr) ∧
     (applySeq C03Witness.env s [t, u] default).isOk = true ∧
     applyBatch C03Witness.env s [t, u] default = .reject .duplicateTx := by
-  refine ⟨permPre_tu, by simp [DepOrder, t, u], ⟨hdr, by decide⟩, by decide +kernel,
+  refine ⟨permPre_tu, by simp [DepOrder, t, u], by decide +kernel,
     C03Witness.eq_of_isDup (by decide +kernel)⟩
 
 open C03SeqWitness in
@@ -191,15 +261,16 @@ open C03SeqWitness in
     rejected -/
 theorem C03_seq_orders_counterexample :
     [t, u].Perm [u, t] ∧ PermPre C03Witness.env s [t, u] ∧ DepOrder [t, u] ∧ DepOrder [u, t] ∧
-    (∃ hdr, s.history.get (s.height - 1) = some hdr) ∧
     (applySeq C03Witness.env s [t, u] default).isOk = true ∧
     applySeq C03Witness.env s [u, t] default = .reject .duplicateTx := by
   refine ⟨List.Perm.swap _ _ _, permPre_tu, by simp [DepOrder, t, u], by simp [DepOrder, t, u],
-    ⟨hdr, by decide⟩, by decide +kernel, C03Witness.eq_of_isDup (by decide +kernel)⟩
+    by decide +kernel, C03Witness.eq_of_isDup (by decide +kernel)⟩
 
 open C03SeqWitness in
 /-- non-vacuity: a two-transaction chain (the second spends the first's output) satisfies the hypotheses and is
-    accepted both ways -/
+    accepted both ways.  (This state has its previous header — a later block; the conjunct saying so is kept as a
+    description of the witness, it is no longer a hypothesis of the theorems.  For the first block see
+    `C03_seq_nonvacuous_first_block`.) -/
 theorem C03_seq_nonvacuous :
     ∃ (env : Env) (s : State) (a b : Tx) (fb : Header),
       PermPre env s [a, b] ∧ DepOrder [a, b] ∧ (∃ id ∈ b.inputs, id.txhash = a.hash) ∧
@@ -218,6 +289,54 @@ theorem C03_seq_nonvacuous :
     simp only [List.mem_cons, List.not_mem_nil, or_false] at hx
     rcases hx with rfl | rfl <;> simp [s, a, b, P, CoinMap.getCoin, AList.get]
 
+open C03SeqWitness in
+/-- non-vacuity **in the first block** (the case the dropped hypothesis `hh` excluded): a state of height 0 with empty
+    history — no previous header, covenants are shown the stand-in — and a two-transaction chain whose covenants
+    read that header (`last_header.height == 0`); all hypotheses hold and the chain is accepted both ways.  The
+    covenants really look at the stand-in: the same batch is rejected when the stand-in carries height 1. -/
+theorem C03_seq_nonvacuous_first_block :
+    ∃ (env : Env) (s : State) (a b : Tx) (fb : Header),
+      s.height = 0 ∧ s.history = [] ∧ ¬ (∃ hdr, s.history.get (s.height - 1) = some hdr) ∧
+      lastHeaderOf s fb = genesisStandIn s ∧
+      PermPre env s [a, b] ∧ DepOrder [a, b] ∧ (∃ id ∈ b.inputs, id.txhash = a.hash) ∧ GfFresh env s [a, b] ∧
+      (applyBatch env s [a, b] fb).isOk = true ∧ (applySeq env s [a, b] fb).isOk = true ∧
+      (applyBatch env { s with height := 1 } [a, b] fb).isOk = false := by
+  refine ⟨C03Witness.env, s0, a0, b0, default, rfl, rfl, by simp [s0, AList.get], rfl,
+    ⟨by decide, ?_, ?_, ?_, counts_s0, trivial, by decide, by decide⟩,
+    by simp [DepOrder, a0, b0, P0], ⟨⟨[1], 0⟩, by simp [b0], rfl⟩, ?_, by decide +kernel,
+    by decide +kernel, by decide +kernel⟩
+  · intro x hx hk _
+    simp only [List.mem_cons, List.not_mem_nil, or_false] at hx
+    rcases hx with rfl | rfl <;> cases hk
+  · intro x hx hk _
+    simp only [List.mem_cons, List.not_mem_nil, or_false] at hx
+    rcases hx with rfl | rfl <;> cases hk
+  · intro x hx i
+    simp only [List.mem_cons, List.not_mem_nil, or_false] at hx
+    rcases hx with rfl | rfl <;> simp [s0, a0, b0, P0, CoinMap.getCoin, AList.get]
+  · intro x hx hk
+    simp only [List.mem_cons, List.not_mem_nil, or_false] at hx
+    rcases hx with rfl | rfl <;> cases hk
+
+open C03SeqWitness in
+/-- **the record of F25**: the old environment depended on the fallback header (height 0, empty history) — and that
+    header, the current block sealed as it stood, changes with every transaction applied -/
+theorem C03_old_fallback_matters : ∃ s fb fb', lastHeaderOfOld s fb ≠ lastHeaderOfOld s fb' := by
+  refine ⟨s0, default, { (default : Header) with feePool := 1 }, ?_⟩
+  decide
+
+/-- where the previous header exists, old and new agree: F25 concerned the first block only -/
+theorem C03_old_agrees_later_blocks (s : State) (fb : Header)
+    (hh : ∃ hdr, s.history.get (s.height - 1) = some hdr) :
+    C03SeqWitness.lastHeaderOfOld s fb = lastHeaderOf s fb := by
+  obtain ⟨hdr, hh⟩ := hh
+  simp only [C03SeqWitness.lastHeaderOfOld, lastHeaderOf, hh, Option.getD_some]
+
+/-- … and in the first block the new environment is the stand-in, whatever is passed -/
+theorem C03_first_block_standIn (s : State) (fb : Header) (hn : s.history.get (s.height - 1) = none) :
+    lastHeaderOf s fb = genesisStandIn s := by
+  simp only [lastHeaderOf, hn, Option.getD_none]
+
 /-- the added hypothesis is satisfiable together with all the others (same chain as above: there is no faucet
     transaction in it) and in the presence of a grandfathered faucet transaction -/
 theorem C03_seq_hgf_nonvacuous :
@@ -234,11 +353,18 @@ theorem C03_seq_hgf_nonvacuous :
 
 end Mel
 
+#print axioms Mel.C03_fallback_unused
+#print axioms Mel.C03_applyBatch_fallback_unused
+#print axioms Mel.C03_lastHeader_stable
 #print axioms Mel.C03_batch_split
 #print axioms Mel.C03_seq_of_batch
 #print axioms Mel.C03_batch_of_seq
 #print axioms Mel.C03_seq_orders
 #print axioms Mel.C03_seq_nonvacuous
+#print axioms Mel.C03_seq_nonvacuous_first_block
+#print axioms Mel.C03_old_fallback_matters
+#print axioms Mel.C03_old_agrees_later_blocks
+#print axioms Mel.C03_first_block_standIn
 #print axioms Mel.C03_batch_of_seq_counterexample
 #print axioms Mel.C03_seq_orders_counterexample
 #print axioms Mel.C03_seq_hgf_nonvacuous
